@@ -265,6 +265,27 @@ class _ExprCanon(ast.NodeTransformer):
 
     visit_ListComp = visit_SetComp = visit_DictComp = visit_GeneratorExp = _comp
 
+    def visit_UnaryOp(self, n):
+        self.generic_visit(n)
+        # not (a is not None and b is not None)  is  a is None or b is None: the negation is pushed into a conjunction / disjunction
+        # whose operands are all exactly negatable (is / == / in and their negations, or `not x`)
+        NEG = {ast.Is: ast.IsNot, ast.IsNot: ast.Is, ast.Eq: ast.NotEq, ast.NotEq: ast.Eq, ast.In: ast.NotIn, ast.NotIn: ast.In}
+        if isinstance(n.op, ast.Not) and isinstance(n.operand, ast.BoolOp) and len(n.operand.values) >= 2:
+            def negatable(e):
+                return (isinstance(e, ast.Compare) and len(e.ops) == 1 and type(e.ops[0]) in NEG) or (isinstance(e, ast.UnaryOp) and isinstance(e.op, ast.Not))
+
+            if all(negatable(e) for e in n.operand.values):
+                vals = []
+                for e in n.operand.values:
+                    if isinstance(e, ast.Compare):
+                        vals.append(ast.copy_location(ast.Compare(left=e.left, ops=[NEG[type(e.ops[0])]()], comparators=e.comparators), e))
+                    else:
+                        vals.append(e.operand)
+                self.changed = True
+                op = ast.Or() if isinstance(n.operand.op, ast.And) else ast.And()
+                return ast.copy_location(ast.BoolOp(op=op, values=vals), n)
+        return n
+
     def visit_IfExp(self, n):
         self.generic_visit(n)
         if isinstance(n.test, ast.UnaryOp) and isinstance(n.test.op, ast.Not):
@@ -308,6 +329,22 @@ class _ExprCanon(ast.NodeTransformer):
                 and not isinstance(n.args[0].value, bool):
             self.changed = True
             n.args = [n.args[1]]
+        if isinstance(n.func, ast.Name) and n.func.id == "format" and "format" not in self.bound and 1 <= len(n.args) <= 2 and not n.keywords \
+                and (len(n.args) == 1 or (isinstance(n.args[1], ast.Constant) and isinstance(n.args[1].value, str))) and not isinstance(n.args[0], ast.Starred):
+            # format(v, ".2f") is f"{v:.2f}"
+            self.changed = True
+            spec = n.args[1].value if len(n.args) == 2 else ""
+            fv_ = ast.FormattedValue(value=n.args[0], conversion=-1, format_spec=ast.JoinedStr(values=[ast.Constant(value=spec)]) if spec else None)
+            return ast.copy_location(ast.JoinedStr(values=[fv_]), n)
+        if isinstance(n.func, ast.Attribute) and n.func.attr == "reshape" and isinstance(n.func.value, ast.Name) and self.imports.get(n.func.value.id) == "numpy" and len(n.args) == 2 \
+                and not any(isinstance(a, ast.Starred) for a in n.args) and all(k.arg == "order" for k in n.keywords):
+            # numpy.reshape(a, shape) is a.reshape(shape)
+            self.changed = True
+            return ast.copy_location(ast.Call(func=ast.Attribute(value=n.args[0], attr="reshape", ctx=ast.Load()), args=[n.args[1]], keywords=n.keywords), n)
+        if isinstance(n.func, ast.Attribute) and n.func.attr == "around" and isinstance(n.func.value, ast.Name) and self.imports.get(n.func.value.id) == "numpy":
+            # numpy.around is numpy.round
+            self.changed = True
+            n.func.attr = "round"
         if isinstance(n.func, ast.Name) and n.func.id == "dict" and len(n.args) == 1 and not n.keywords:
             a = n.args[0]
             if isinstance(a, (ast.ListComp, ast.GeneratorExp)) and isinstance(a.elt, ast.Tuple) and len(a.elt.elts) == 2 and not any(isinstance(e, ast.Starred) for e in a.elt.elts):
@@ -590,6 +627,14 @@ def _lower_statements(fn: ast.AST) -> List[str]:
                 # self.x: T = v  is  self.x = v
                 stmts[i] = st = ast.copy_location(ast.Assign(targets=[st.target], value=st.value), st)
                 notes.append("annotated attribute assignment written as a plain assignment")
+            if isinstance(st, ast.Expr) and isinstance(st.value, ast.Call) and isinstance(st.value.func, ast.Attribute) and st.value.func.attr == "setdefault" and len(st.value.args) == 2 \
+                    and not st.value.keywords and isinstance(st.value.func.value, ast.Name) and all(isinstance(a, (ast.Name, ast.Constant)) for a in st.value.args):
+                # d.setdefault(k, v) as a statement (result unused, k / v plain)  is  if not k in d: d[k] = v
+                d_, k_, v_ = st.value.func.value, st.value.args[0], st.value.args[1]
+                test = ast.UnaryOp(op=ast.Not(), operand=ast.Compare(left=k_, ops=[ast.In()], comparators=[ast.Name(id=d_.id, ctx=ast.Load())]))
+                store = ast.Assign(targets=[ast.Subscript(value=ast.Name(id=d_.id, ctx=ast.Load()), slice=k_, ctx=ast.Store())], value=v_)
+                stmts[i] = st = ast.fix_missing_locations(ast.copy_location(ast.If(test=test, body=[ast.copy_location(store, st)], orelse=[]), st))
+                notes.append("d.setdefault(k, v) as a statement written as the membership test and store")
             if isinstance(st, ast.Delete) and len(st.targets) == 1 and isinstance(st.targets[0], ast.Subscript) and isinstance(st.targets[0].value, ast.Name) \
                     and isinstance(st.targets[0].slice, ast.Constant) and isinstance(st.targets[0].slice.value, int) and not isinstance(st.targets[0].slice.value, bool):
                 t = st.targets[0]
